@@ -101,6 +101,50 @@ impl<'c> Slice<'c> {
         core_data_src: &'c [u8],
         external_data_srcs: &'c [(block::ContentId, Cow<'c, [u8]>)],
     ) -> io::Result<Vec<Record<'c>>> {
+        let mut records = self.read_records(
+            header,
+            compression_header,
+            core_data_src,
+            external_data_srcs,
+        )?;
+
+        let reference_sequence_context = self.header.reference_sequence_context();
+
+        let slice_reference_sequence = get_slice_reference_sequence(
+            &reference_sequence_repository.clone(),
+            header,
+            compression_header,
+            &self.header,
+            external_data_srcs,
+        )?;
+
+        let substitution_matrix = compression_header.preservation_map().substitution_matrix();
+
+        for record in &mut records {
+            if !record.bam_flags.is_unmapped() && !record.cram_flags.sequence_is_missing() {
+                record.reference_sequence = if reference_sequence_context.is_many() {
+                    get_record_reference_sequence(&reference_sequence_repository, header, record)?
+                } else {
+                    slice_reference_sequence.clone()
+                };
+
+                record.substitution_matrix = substitution_matrix.clone();
+            }
+        }
+
+        resolve_mates(&mut records)?;
+
+        Ok(records)
+    }
+
+    // Decodes the records of the slice without attaching reference sequences or resolving mates.
+    pub(crate) fn read_records<'h: 'c, 'ch: 'c>(
+        &self,
+        header: &'h sam::Header,
+        compression_header: &'ch CompressionHeader,
+        core_data_src: &'c [u8],
+        external_data_srcs: &'c [(block::ContentId, Cow<'c, [u8]>)],
+    ) -> io::Result<Vec<Record<'c>>> {
         let core_data_reader = BitReader::new(core_data_src);
 
         let mut external_data_readers = ExternalDataReaders::new();
@@ -120,35 +164,12 @@ impl<'c> Slice<'c> {
             initial_id,
         );
 
-        let slice_reference_sequence = get_slice_reference_sequence(
-            &reference_sequence_repository.clone(),
-            header,
-            compression_header,
-            &self.header,
-            external_data_srcs,
-        )?;
-
-        let substitution_matrix = compression_header.preservation_map().substitution_matrix();
-
         let mut records = vec![Record::default(); self.header.record_count()];
 
         for record in &mut records {
             reader.read_record(record)?;
-
             record.header = Some(header);
-
-            if !record.bam_flags.is_unmapped() && !record.cram_flags.sequence_is_missing() {
-                record.reference_sequence = if reference_sequence_context.is_many() {
-                    get_record_reference_sequence(&reference_sequence_repository, header, record)?
-                } else {
-                    slice_reference_sequence.clone()
-                };
-
-                record.substitution_matrix = substitution_matrix.clone();
-            }
         }
-
-        resolve_mates(&mut records)?;
 
         Ok(records)
     }
